@@ -70,7 +70,14 @@ pub fn run(cx: &Cx) -> (Acc, Value) {
 }
 
 fn campaign(cx: &Cx, target: &str, acc: &mut Acc) -> Value {
-    let runs: u64 = std::env::var("VP_FUZZ_RUNS").ok().and_then(|s| s.parse().ok()).unwrap_or(1_500_000);
+    // Fixed amounts of work (about two to three minutes each on this machine), not time quotas.
+    let default_runs = match target {
+        "range_diff" => 600_000,
+        "accept_encoding" => 300_000,
+        "serve_total" => 150_000,
+        _ => 40_000,
+    };
+    let runs: u64 = std::env::var("VP_FUZZ_RUNS").ok().and_then(|s| s.parse().ok()).unwrap_or(default_runs);
     let fuzz_dir = format!("{VERIF_DIR}/fuzz");
     let corpus = format!("{fuzz_dir}/corpus/{target}-{}-{}", cx.id, std::process::id());
     let artifacts = format!("{fuzz_dir}/artifacts/{target}-{}-{}/", cx.id, std::process::id());
